@@ -22,6 +22,7 @@ type Verdict struct {
 	Output  string
 	OK      bool // discharged (unsat for obligations, sat for covers)
 	Bytes   int
+	Retried bool
 }
 
 type solverDef struct {
@@ -162,5 +163,30 @@ func solveAll(u *Universe, obls []*Obligation, outDir string, timeoutS, workers,
 		}(i, o)
 	}
 	wg.Wait()
+	// second stage: obligations that were not decided (timeout/unknown under load) are retried with
+	// little contention and a longer limit; a definite answer (sat/unsat) is never retried.
+	var retry []int
+	for i, v := range res {
+		undecided := v.Result != "sat" && v.Result != "unsat"
+		if undecided && obls[i].Kind != "unsupported" {
+			retry = append(retry, i)
+		}
+	}
+	if len(retry) > 0 {
+		sem2 := make(chan struct{}, 4)
+		for _, i := range retry {
+			wg.Add(1)
+			sem2 <- struct{}{}
+			go func(i int) {
+				defer wg.Done()
+				defer func() { <-sem2 }()
+				first := res[i].Seconds
+				res[i] = solveOne(u, obls[i], outDir, timeoutS*4, seed)
+				res[i].Seconds += first
+				res[i].Retried = true
+			}(i)
+		}
+		wg.Wait()
+	}
 	return res
 }
